@@ -284,3 +284,29 @@ for mode in MODES:
                 ['all(self._data[i].imag == old(self._data[i].imag) for i in range(n))']),
              modifies=['self._data'], name=FV + '::Vector._abs_set_val%s' % sfx, native=native_views(mode),
              canaries=[('complex-step branch also used outside complex step', ("self._views[name].view.real[idx] = val", "self._views[name].view[idx] = val"), 'post')] if mode == 'cplx' else [])
+
+
+# ---- DefaultVector._initialize_data: the named views tile the data array in declaration order ----------------------
+# two variables 'a' (size n1) and 'b' (size n2), root vector and sub-vector of a parent whose layout puts 'a' at p0.
+DV = 'openmdao/vectors/default_vector.py'
+NAMES2 = Assumed(returns_expr="[('a', (n1,)), ('b', (n2,))]", note='System._name_shape_iter(iotype): (name, shape) pairs of this system in vector order')
+for _root in (True, False):
+    parent = None if _root else Obj('DefaultVector', _data=Arr('NP'), _scaling=None, _under_complex_step=False,
+                                    _views=DictT({'a': Obj('_VecData', range=TupleT(Size('p0'), Size('p1')))}))
+    contract(DV + '::DefaultVector._initialize_data', ['C33'],
+             dict(self=Obj('DefaultVector', _iotype='output', _alloc_complex=False, _name='nonlinear', _kind='output', _scaling=None, _n1=Size('n1'), _n2=Size('n2')),
+                  parent_vector=parent, system=Obj('System')),
+             requires=[] if _root else ['p1 == p0 + n1', 'p0 + n1 + n2 <= NP'],
+             ensures=["self._views['a'].range == (0, n1) and self._views['b'].range == (n1, n1 + n2)",
+                      'len(self._data) == n1 + n2',
+                      # every variable's flat view is exactly its range of the data array (views tile [0, end) in order)
+                      "is_view(self._views['a'].flat, self._data, 0, n1) and is_view(self._views['b'].flat, self._data, n1, n1 + n2)"] +
+                     (['all(self._data[i] == 0 for i in range(n1 + n2))', 'self._parent_slice == slice(0, n1 + n2)'] if _root else
+                      ['is_view(self._data, parent_vector._data, p0, p0 + n1 + n2)', 'self._parent_slice == slice(p0, p0 + n1 + n2)']),
+             modifies=['self._views', 'self._data', 'self._parent_slice', 'self._names', 'self._scaling'],
+             assumed={'system._name_shape_iter': Assumed(returns_expr="[('a', (self._n1,)), ('b', (self._n2,))]", note='System._name_shape_iter(iotype): (name, shape) pairs of this system in vector order'),
+                      'shape_to_len': Assumed(returns_expr='arg0[0]')},
+             inline={'set_view', '__init__', '_VecData'},
+             name=DV + '::DefaultVector._initialize_data[%s, two variables]' % ('root' if _root else 'sub-vector of a parent'),
+             canaries=[('every view starts at 0', ('views[name] = _VecData(shape, (start, end))', 'views[name] = _VecData(shape, (0, end))'), 'post')] if _root else
+                      [('child data taken from the start of the parent array', ('self._parent_slice = slice(start, start + end)', 'self._parent_slice = slice(0, end)'), 'post')])
